@@ -15,10 +15,14 @@ CASE_TIMEOUT = 300
 CPU_BUDGET = 120
 REQUIRED_OBS = ["histories", "faults_injected", "faulty_calls_that_raised", "archives_read_back"]
 FAULTS = ["missing", "open-EACCES", "open-EIO", "lstat-EACCES", "read-fails-at-0", "read-fails-midway", "writef-read-fails-at-0", "writef-read-fails-midway", "bad-arcname-writestr",
-          "bad-arcname-writef", "writeall-missing"]
+          "bad-arcname-writef", "writeall-missing",
+          # sources and arguments that cannot be stored: the call itself has to say so (found by a bug hunt: they used to be accepted and to make close() fail)
+          "fifo-source", "ancient-mtime", "undecodable-name", "writef-past-eof", "nul-in-arcname"]
 RULE = ("write histories of 1..5 calls (write, writestr, writef, writeall) with ONE fault injected into call i: source missing (real), open raising EACCES/EIO or lstat "
         "raising EACCES (patched pathlib.Path for that path only), read raising after 0 or k bytes (faulty file object for write; caller-supplied BufferedIOBase for "
-        "writef), name rejected (ValueError); followed by 0..2 further successful writes; closed by context manager or explicitly. Oracle: the faulty call raised to the "
+        "writef), name rejected (ValueError), sources and arguments that cannot be stored (FIFO, mtime before 1601, undecodable file name, file object positioned past its end, "
+        "NUL in the name); create and append sessions (the archive appended to holds 'old.txt'); symbolic links among the successful calls; followed by 0..2 further successful "
+        "writes; closed by context manager or explicitly. Oracle: the faulty call raised to the "
         "caller; for open/argument faults the closed archive holds exactly the successfully written members, intact (py7zr and reference reader), and the failed source "
         "is never opened or read again later in the session; for mid-read faults the closed file never opens successfully with wrong contents. Cell = (fault kind, "
         "position of the faulty call, calls after it, close style, chain).")
@@ -33,11 +37,12 @@ def cases(rng, tier):
                 for close in ("ctx", "explicit"):
                     for dirbefore in ((False, True) if before else (False,)):
                         out.append({"fault": fault, "before": before, "after": after, "close": close, "chain": rng.choice(["LZMA2", "COPY", "DEFLATE", "ZSTD"]), "seed": rng.getrandbits(32),
-                                    "header": rng.choice(["encoded", "raw"]), "dirbefore": dirbefore})
+                                    "header": rng.choice(["encoded", "raw"]), "dirbefore": dirbefore, "mode": "a" if (before + after) % 2 else "w", "links": fault.endswith("midway") or rng.random() < 0.2})
     if tier == "thorough":
         for _ in range(4000):
             out.append({"fault": rng.choice(FAULTS), "before": rng.randint(0, 3), "after": rng.randint(0, 2), "close": rng.choice(["ctx", "explicit"]), "dirbefore": rng.random() < 0.4,
-                        "chain": rng.choice(["LZMA2", "COPY", "DEFLATE", "ZSTD", "BZIP2", "LZMA"]), "seed": rng.getrandbits(32), "header": rng.choice(["encoded", "raw"])})
+                        "chain": rng.choice(["LZMA2", "COPY", "DEFLATE", "ZSTD", "BZIP2", "LZMA"]), "seed": rng.getrandbits(32), "header": rng.choice(["encoded", "raw"]),
+                        "mode": rng.choice(["w", "a"]), "links": rng.random() < 0.4})
     return out
 
 
@@ -136,6 +141,8 @@ def run_case(case):
         return o_lstat(self, *a, **k)
 
     model = []
+    model_files = []
+    links = {}
     dirs = []
     order = []
     faulty_obj = None
@@ -156,6 +163,16 @@ def run_case(case):
                 dirs.append(name)
                 order.append(name)
                 return
+            if case.get("links") and model_files and r.random() < 0.5:
+                # a symbolic link to a file written earlier: its target text is member content too
+                name = "%s-%d-link" % (tag, counter[0])
+                tgt = r.choice(model_files)
+                lp = os.path.join(src, "l%d" % counter[0])
+                os.symlink(os.path.basename(tgt), lp)
+                z.write(lp, name)
+                links[name] = os.path.basename(tgt)
+                order.append(name)
+                return
             how = r.choice(["writestr", "writef", "write"])
             name = "%s-%d-%s" % (tag, counter[0], how)
             data = G.materialise(G.content_recipe(r, max_len=20000))
@@ -168,6 +185,7 @@ def run_case(case):
                 with open(p, "wb") as f:
                     f.write(data)
                 z.write(p, name)
+                model_files.append(p)
             model.append((name, data))
             order.append(name)
 
@@ -175,7 +193,12 @@ def run_case(case):
         z = None
         close_err = None
         try:
-            z = py7zr.SevenZipFile(arc, "w", filters=filt)
+            if case.get("mode") == "a":
+                with py7zr.SevenZipFile(arc, "w", filters=filt) as z0:
+                    z0.writestr(b"old contents " * 20, "old.txt")
+                model.append(("old.txt", b"old contents " * 20))
+                order.append("old.txt")
+            z = py7zr.SevenZipFile(arc, case.get("mode", "w"), filters=filt)
             if case["header"] == "raw":
                 z.set_encoded_header_mode(False)
             for i in range(case["before"]):
@@ -198,6 +221,31 @@ def run_case(case):
                 elif fault in ("writef-read-fails-at-0", "writef-read-fails-midway"):
                     faulty_obj = FaultyReader(vdata, 0 if fault.endswith("at-0") else 30000)
                     z.writef(faulty_obj, "victim")
+                elif fault == "fifo-source":
+                    fp_ = os.path.join(src, "pipe")
+                    os.mkfifo(fp_)
+                    z.write(fp_, "victim")
+                elif fault == "ancient-mtime":
+                    with open(vpath, "wb") as f:
+                        f.write(vdata)
+                    os.utime(vpath, (-2.0e10, -2.0e10))  # year 1336: before the FILETIME epoch
+                    z.write(vpath, "victim")
+                elif fault == "undecodable-name":
+                    bad = os.path.join(os.fsencode(src), b"caf\xe9.txt")
+                    with open(bad, "wb") as f:
+                        f.write(b"x")
+                    z.write(os.fsdecode(bad), os.fsdecode(b"victim-caf\xe9"))
+                elif fault == "writef-past-eof":
+                    with open(vpath, "wb") as f:
+                        f.write(b"0123456789")
+                    fobj_ = open(vpath, "rb")
+                    fobj_.seek(1000)
+                    try:
+                        z.writef(fobj_, "victim")
+                    finally:
+                        fobj_.close()
+                elif fault == "nul-in-arcname":
+                    z.writestr(b"data", "vic\x00tim/x")
                 elif fault == "bad-arcname-writestr":
                     z.writestr(b"data", "../escape")
                 elif fault == "bad-arcname-writef":
@@ -280,7 +328,21 @@ def run_case(case):
                     if wrong or (victim_listed and res[2].get("victim") != vdata):
                         viol.append({"key": "midread-opens-with-wrong-contents/%s/%s" % (fault, who), "what": "%s: %s opens the file successfully: lists %r, wrong bytes for %r%s" % (
                             tag, who, listed[:6], wrong[:3], " and a partial 'victim'" if victim_listed else "")})
-    cell = "%s|at%d|after%d|%s|%s|%s" % (fault, case["before"], case["after"], case["close"], case["chain"], "dir-before" if case.get("dirbefore") else "-")
+        if links:
+            # link members: their target text is content too. Whatever happened, an extraction that succeeds must create the links as written
+            out_ = os.path.join(d, "xl")
+            try:
+                with py7zr.SevenZipFile(arc, "r") as zz:
+                    zz.extractall(out_)
+                obs["link_targets_checked"] = obs.get("link_targets_checked", 0) + len(links)
+                for ln, tgt in links.items():
+                    p_ = os.path.join(out_, ln)
+                    got_t = os.readlink(p_) if os.path.islink(p_) else None
+                    if got_t != tgt:
+                        viol.append({"key": "link-extracted-with-wrong-target/%s" % fault, "what": "%s: extractall succeeded and made %r -> %r, written as -> %r" % (tag, ln, got_t, tgt)})
+            except Exception:
+                obs["link_extractions_raised"] = obs.get("link_extractions_raised", 0) + 1
+    cell = "%s|at%d|after%d|%s|%s|%s|%s" % (fault, case["before"], case["after"], case["close"], case["chain"], "dir-before" if case.get("dirbefore") else "-", case.get("mode", "w"))
     sample = {"fault": fault, "before": case["before"], "after": case["after"], "close": case["close"], "raised": None if raised is None else type(raised).__name__,
               "py7zr": py[0] if py else None, "reference": ref[0] if ref else None}
     if viol:
